@@ -103,5 +103,21 @@ CLAIMED.update({
 ENGINES.append({"name": "bus-rig", "path": "harness/src/bus", "serves_properties": ["C02", "C03", "C04", "C05", "C09", "C10", "C11", "C12"],
   "kind_free_text": "deterministic single-thread executor (scripted/random), in-memory AsyncTransport with fault injection, executable sequential model of the bus with nondeterministic transitions, protocol-level peers driving the real Broker/Connection tasks, workload generator, snapshot-hook and statistics cross-checks"})
 
+RIG_NOTE = "Real aldrin::Client, Broker and Connection tasks on the harness executor (single thread, seeded random task order with spurious polls) over the harness transport; programs are deadlock-free by construction, so a task still waiting at quiescence is a lost wake-up or deadlock; thread-level races are not explored."
+CLAIMED["C05"] = ("bus-rig+client-rig", "exploration",
+   "Two layers. Broker level: generated channel histories (create/claim/close/send-item/add-capacity/disconnect on both ends, capacities 0,1,3,4,5,16,2^32-2,2^32-1, senders within and beyond their announced credit, overflowing grants) against the bus model: end state machine, both credits, conservation (forwarded <= granted, announced <= granted), exactly one claimed/closed notification, starvation check. Client level: producer and consumer on different real clients with the real Sender/Receiver under random schedules and FIFO sizes 1..16: what arrives is the exact in-order prefix of the uniquely numbered items, complete unless one side stopped early, the producer never errors while the consumer reads, both terminate. Held on what was observed.",
+   BUS_NOTE + " " + RIG_NOTE, "runtime history-vs-model oracle + exactly-once/in-order log check over real clients under random schedules", "DESIGN.md §4 C05")
+CLAIMED["C06"] = ("client-rig", "exploration",
+   "Random multi-client programs over the public client API (objects, services, calls of every outcome incl. cancelled ones, event subscriptions with emits, proxies dropped, channels across clients, bus listeners, lifetimes, discovery, proxies to dead services, double claims; FIFO sizes 1,2,4,16 and unbounded; negotiated versions 1.14-1.20 through a version-downgrading transport) run under seeded random task schedules with spurious polls. Monitors: panic around every poll, a watchdog for polls that never return, every Client::run and Connection::run returns Ok, every application task finishes by executor quiescence, calls return the echo of their own nonce, events and items carry their own tags in order, and after all clients shut down an idle-shutdown request stops the broker. Held on the (program, schedule) pairs observed.",
+   RIG_NOTE, "runtime invariant monitors (panic, hang, quiescence, result consistency) over randomized task schedules", "DESIGN.md §4 C06")
+CLAIMED["C15"] = ("client-rig", "fault_enumeration",
+   "For generated multi-client programs with a fixed schedule seed, a counting run numbers the ready transport operations on the victim's pipe; the program is re-run once per operation index with an injected error, an end of stream and a half-open (send-only) failure on the client side, with a fault on the broker side of the pipe, with each clean cause (shutdown requested, broker shutdown, forced by the broker handle) triggered at that index, and with a half-open failure coinciding with the shutdown request; 'last handle dropped' is enumerated over the step boundaries of a fixed script. Oracle: Client::run returns (the injected error / Disconnected / Ok), every task working on the victim's handles has finished at quiescence, operations started after the stop report the shutdown, the broker-side connection task has returned, and the broker still stops when idle. Held on the fault runs observed.",
+   RIG_NOTE + " The prefix of a re-run equals the counting run because program, schedule seed and transport are deterministic.", "runtime fault injection at every transport operation index + quiescence/termination monitors", "DESIGN.md §4 C15")
+CLAIMED["C19"] = ("client-rig", "exploration",
+   "Actors on several real clients create, destroy and drop objects (3 UUIDs, re-created under new cookies) and services (2 UUIDs) while discoverers of every entry shape (built in the three ways, read at random points with cancelled polls, restarted), lifetimes bound to every object and find_object queries run concurrently under seeded random schedules. At quiescence the discoverer database (iter, object_id, service_id) must equal the ground truth per entry, per-object event streams must alternate created/destroyed and end in the truth, a lifetime has resolved iff its object is gone, and find results must have existed during the call. Held on the (program, schedule) pairs observed.",
+   RIG_NOTE + " Ground truth = the Object/Service values the actors hold at quiescence.", "runtime convergence-to-ground-truth oracle over randomized schedules", "DESIGN.md §4 C19")
+ENGINES.append({"name": "client-rig", "path": "harness/src/bus/clientrig.rs", "serves_properties": ["C05", "C06", "C15", "C19"],
+  "kind_free_text": "real aldrin clients + broker + connection tasks on the deterministic executor in random mode; transport with FIFO bounds, fault injection at the k-th ready operation (error / EOF / half-open) and protocol-version downgrade; program generator over the public client API; in-poll hang watchdog"})
+
 if __name__ == "__main__":
     main()
